@@ -73,6 +73,21 @@ def make(desc, counter):
     if k == "not":
         sub = make(desc[1], counter)
         return bt.algos.Not(sub[0]), ("not", sub[1])
+    if k == "or_shared":
+        # ONE stateful object as two branches of the same Or (it answers alternately): every branch is a call
+        ident = counter[0]
+        counter[0] += 1
+        Rec, _ = _rec_classes()
+
+        class Flip(Rec):
+            def __call__(self, target):
+                LOG.append(self.ident)
+                self.ret = not self.ret
+                return not self.ret
+
+        a = Flip(ident, desc[1])
+        other = make(leaf(False, None), counter)
+        return bt.algos.Or([a, other[0], a]), ("or_shared", ident, desc[1], other[1])
     raise KeyError(k)
 
 
@@ -97,6 +112,12 @@ def ref_call(node, log):
         return res
     if k == "not":
         return not ref_call(node[1], log)
+    if k == "or_shared":
+        # first call answers node[2], second call the opposite; the other branch in between
+        log.append(node[1])
+        ref_call(node[3], log)
+        log.append(node[1])
+        return True
 
 
 def stacks_case(item):
@@ -151,6 +172,8 @@ def members():
     for n in (1, 2, 3):
         for combo in itertools.product((True, False), repeat=n):
             m.append(["or", [leaf(r, None) for r in combo]])
+    m.append(["or_shared", True])
+    m.append(["or_shared", False])
     m.append(["not", leaf(True, None)])
     m.append(["not", leaf(False, None)])
     m.append(["not", ["stack", [leaf(True, None), leaf(False, True)]]])
